@@ -209,7 +209,10 @@ class CFG:
             n = self._new("branch", None)
             n.label = "leave"
             self._link(preds, n)
-            self._block_stack[-1].append(n)
+            levels = getattr(st, "levels", 1)
+            if levels > len(self._block_stack):
+                raise AnalysisError("LeaveBlock leaves more inlined helpers than enclose it")
+            self._block_stack[-levels].append(n)
             return []
         n = self._new("stmt", st)
         self._link(preds, n)
